@@ -64,7 +64,9 @@ class C18(Spec):
     def streams(self, tier, seed):
         # the Unmarshal side also under the alternative decoder (the switches are the same Config bits there)
         optdec = {"optdec": {"SONIC_USE_OPTDEC": "1"}}
-        both = {"default": {}, "optdec": {"SONIC_USE_OPTDEC": "1"}}
+        both = {"default": {}, "optdec": {"SONIC_USE_OPTDEC": "1"},
+                # the fast-map mode of the alternative decoder has its own pooled boxes for interface{} values
+                "optdec_fastmap": {"SONIC_USE_OPTDEC": "1", "SONIC_USE_FASTMAP": "1"}}
         if tier == "quick":
             return [Stream("pair", "c18.pair", 3200, timeout=0.2),
                     Stream("entry", "c18.entry", 1200, timeout=0.2, use_model=False),
